@@ -20,16 +20,10 @@ def Ss : List Nat → List Attr
   | [] => []
   | m :: rest => (Ss rest).filter (fun a => !(names (D m)).contains a.name) ++ D m
 
-/-- declared block of the first attrs class of a tail -/
-def nextBlock : List Nat → List Attr
-  | [] => []
-  | m :: rest => if isA m then D m else nextBlock rest
-
-/-- every attrs class exposes what it declares; every plain class exposes what the next attrs class
-    of the tail declares (attribute lookup) and declares nothing itself -/
+/-- every attrs class exposes what it declares; a plain class exposes and declares nothing -/
 def Good : List Nat → Prop
   | [] => True
-  | m :: rest => (if isA m then E m = D m else (E m = nextBlock D isA rest ∧ D m = [])) ∧ Good rest
+  | m :: rest => (if isA m then E m = D m else (E m = [] ∧ D m = [])) ∧ Good rest
 
 theorem keepLast_flatMap_reverse (ms : List Nat) : keepLast (ms.reverse.flatMap E) = Rr E ms := by
   induction ms with
@@ -44,27 +38,6 @@ theorem filter_self_names (l : List Attr) : l.filter (fun a => !(names l).contai
   simp [names]
   exact ⟨a, ha, rfl⟩
 
-theorem nextBlock_nodup (hD : ∀ m, (names (D m)).Nodup) (ms : List Nat) :
-    (names (nextBlock D isA ms)).Nodup := by
-  induction ms with
-  | nil => simp [nextBlock]
-  | cons m rest ih => simp only [nextBlock]; split <;> simp_all
-
-theorem Ss_absorb (ms : List Nat) (hG : Good E D isA ms) :
-    (Ss D ms).filter (fun a => !(names (nextBlock D isA ms)).contains a.name) ++ nextBlock D isA ms
-      = Ss D ms := by
-  induction ms with
-  | nil => simp [Ss, nextBlock]
-  | cons m rest ih =>
-    obtain ⟨h1, h2⟩ := hG
-    by_cases hm : isA m = true
-    · simp only [nextBlock, hm, if_true, Ss, List.filter_append, List.filter_filter, Bool.and_self,
-        filter_self_names, List.append_nil]
-    · simp only [hm] at h1
-      simp only [nextBlock, hm, Ss, h1.2, names_nil, List.append_nil]
-      have ft : (Ss D rest).filter (fun _ => true) = Ss D rest := by induction (Ss D rest) <;> simp_all
-      simpa [ft] using ih h2
-
 /-- gather-then-keep-last = shadowing fold, when the exposed blocks are `Good` -/
 theorem Rr_eq_Ss (hD : ∀ m, (names (D m)).Nodup) (ms : List Nat) (hG : Good E D isA ms) :
     Rr E ms = Ss D ms := by
@@ -76,20 +49,7 @@ theorem Rr_eq_Ss (hD : ∀ m, (names (D m)).Nodup) (ms : List Nat) (hG : Good E 
     · simp only [hm, if_true] at h1
       simp only [Rr, Ss, h1, ih h2, keepLast_of_nodup (hD m)]
     · simp only [hm] at h1
-      simp only [Rr, Ss, h1.1, h1.2, ih h2, keepLast_of_nodup (nextBlock_nodup D isA hD rest)]
-      rw [Ss_absorb E D isA rest h2]
-      have ft : (Ss D rest).filter (fun _ => true) = Ss D rest := by induction (Ss D rest) <;> simp_all
-      simp [ft]
-
-theorem nextBlock_eq_find (ms : List Nat) :
-    nextBlock D isA ms = match ms.find? isA with | some j => D j | none => [] := by
-  induction ms with
-  | nil => rfl
-  | cons m rest ih =>
-    simp only [nextBlock, List.find?_cons]
-    by_cases hm : isA m = true
-    · simp [hm]
-    · simp [hm, ih]
+      simp only [Rr, Ss, h1.1, h1.2, ih h2, keepLast_nil, names_nil, List.append_nil]
 
 end Abstract
 
